@@ -5,6 +5,10 @@ use crate::stream::Stream;
 use crate::user::User;
 
 #[cfg(feature = "clpfd")]
+use crate::compound::CompoundObject;
+#[cfg(feature = "clpfd")]
+use crate::operator::conj::Conj;
+#[cfg(feature = "clpfd")]
 use crate::operator::onceo;
 
 use crate::state::map_sum::map_sum;
@@ -41,9 +45,30 @@ fn force_ans<U: User, E: Engine<U>>(x: LTerm<U, E>) -> Goal<U, E> {
                 ]);
                 g.solve(solver, state)
             },
+            (LTermInner::<U, E>::Compound(compound), _) => {
+                // Label the fields of a compound term like the elements of a list.
+                let mut fields: Vec<LTerm<U, E>> = vec![];
+                compound_terms(compound.as_ref(), &mut fields);
+                let g: Goal<U, E> = Conj::from_iter(fields.into_iter().map(|field| force_ans(field)));
+                g.solve(solver, state)
+            },
             (_, _) => solver.start(&Goal::Succeed, state),
         }
     })
+}
+
+/// Collects the terms in the fields of a compound object, descending into nested objects.
+#[cfg(feature = "clpfd")]
+fn compound_terms<U: User, E: Engine<U>>(
+    compound: &dyn CompoundObject<U, E>,
+    terms: &mut Vec<LTerm<U, E>>,
+) {
+    for child in compound.children() {
+        match child.as_term() {
+            Some(term) => terms.push(term.clone()),
+            None => compound_terms(child, terms),
+        }
+    }
 }
 
 #[cfg(feature = "clpfd")]
